@@ -162,6 +162,7 @@ func execute(seed int64, scenario string, o ExecOpts) (res *Result) {
 	simrt.SimMapSeed = uint64(seed)*0x9e3779b1 + 0x7f4a7c159e3779b9 | 1
 	simrt.SimIter = uint64(seed)*0x85ebca6b + 0xc2b2ae3d27d4eb4f | 1
 	simrt.SimMath = uint64(seed)*0xff51afd7 + 0xed558ccd165667b1 | 1
+	simrt.SimStarve = 1 + uint32(uint64(seed)>>3)&1 // both mutex hand-off disciplines get explored, one per run
 	simrt.SimNoPreempt = 1
 	simrt.SetMode(simrt.ModeCoarse)
 	r.Start = time.Now()
@@ -185,7 +186,7 @@ func execute(seed int64, scenario string, o ExecOpts) (res *Result) {
 		}
 	}()
 	simrt.SetMode(simrt.ModeOff)
-	simrt.SimSeed, simrt.SimRand, simrt.SimMapSeed, simrt.SimIter, simrt.SimMath = 0, 0, 0, 0, 0
+	simrt.SimSeed, simrt.SimRand, simrt.SimMapSeed, simrt.SimIter, simrt.SimMath, simrt.SimStarve = 0, 0, 0, 0, 0, 0
 
 	// C27 is checked on every run of every scenario; a run is non-trivial for it when it went
 	// through a failure, deadline, corruption or missing-filter path (where the engine logs).
@@ -225,6 +226,9 @@ func execute(seed int64, scenario string, o ExecOpts) (res *Result) {
 		res.Samples = r.Samples
 	} else if len(r.Samples) > 0 && seed%50 == 0 {
 		res.Samples = r.Samples
+	}
+	if os.Getenv("SIM_KEEP_SCHED") != "" {
+		res.Sched = r.SchedLog() // debugging aid: the decision list without the cost of the full trace
 	}
 	return res
 }
